@@ -40,6 +40,8 @@ pub struct Monitors {
     /// something that justifies one more ST_FIN happened since the last one went out: a retransmission
     /// timeout, or the transport refused / deferred a datagram
     pub fin_rtx_credit: bool,
+    /// a data retransmission happened and the one FIN repeat that may follow it has not been used yet
+    pub fin_tail_credit: bool,
     /// the peer acknowledged a sequence number that was never sent (no liveness claims after that)
     pub hostile_ack_seen: bool,
     pub all_findings: Vec<Finding>,
@@ -110,6 +112,7 @@ impl Monitors {
         Monitors {
             last_news_t: None,
             fin_rtx_credit: false,
+            fin_tail_credit: false,
             hostile_ack_seen: false,
             cfg: cfg.clone(),
             all_findings: vec![],
@@ -179,6 +182,7 @@ impl Monitors {
         }
         out.push(self.hostile_ack_seen as u64);
         out.push(self.fin_rtx_credit as u64);
+        out.push(self.fin_tail_credit as u64);
         out.push(self.last_news_t.map(|t| now.saturating_sub(t).min(self.cfg.inactivity_ms * 1_000)).unwrap_or(u64::MAX));
         out.push(self.peer_last_wnd as u64);
         out.push(self.largest_payload_seen as u64);
@@ -1289,10 +1293,19 @@ impl Monitors {
                 self.fin_rtx_credit = true;
             }
             let data_rtx_now = rec.emitted.iter().any(|e| e.hdr.ptype == 0 && self.tx.get(&e.hdr.seq).map(|t| t.count > 1).unwrap_or(false));
+            // a loss recovery that retransmits data re-sends the FIN behind it once - in the same step if the
+            // FIN was already out, otherwise at the first opportunity after the FIN's first transmission
+            if data_rtx_now {
+                self.fin_tail_credit = true;
+            }
             if fins_now > 0 {
                 let repeats = if fins_before == 0 { fins_now - 1 } else { fins_now };
                 let dying = state_after == "gone";
-                if repeats > 0 && !self.fin_rtx_credit && !data_rtx_now && !dying && !self.hostile_ack_seen && !self.desync {
+                let tail = repeats > 0 && self.fin_tail_credit;
+                if tail {
+                    self.fin_tail_credit = false;
+                }
+                if repeats > 0 && !self.fin_rtx_credit && !tail && !dying && !self.hostile_ack_seen && !self.desync {
                     v.push(f(
                         "C17",
                         "teardown",
